@@ -60,6 +60,10 @@ class OpSequence(Scenario):
     """first operation fixed by the scenario (sharding), the following ones chosen symbolically from the alphabet"""
     pid = "C01"
     include_io = True
+    compare_tree = True         # C02 re-uses the sequences with a structural validator instead (harness/c02.py)
+
+    def after_close(self, cx, h5file, seq):
+        return None
 
     def run(self, cx):
         if self.backend == "real":
@@ -188,9 +192,12 @@ class OpSequence(Scenario):
                 del o
             live = tree_snapshot(st["ws"])
             st["ws"].close()
+            seq = " -> ".join(ops)
+            self.after_close(cx, ws.h5file, seq)
+            if not self.compare_tree:
+                return "ok"
             ws2 = Workspace(ws.h5file)
             back = tree_snapshot(ws2)
-            seq = " -> ".join(ops)
             cx.prove(not live["#multiplicity"] and not back["#multiplicity"], f"[{seq}] every entity is listed once under one parent",
                      "nothing duplicated")
             cx.prove(set(back) == set(live), f"[{seq}] the file holds exactly the entities the live workspace shows "
